@@ -254,7 +254,7 @@ def check_interrupted_sweep(case):
 UNITS = [
     Unit("interrupted_sweep", check_interrupted_sweep, strategy=_interrupted_sweep_cases, quick=18, thorough=500, shards_quick=3,
          doc="every line event and every C-level call of one verify_root interrupted once on a fresh envelope, each followed by a normal retry of the same envelope"),
-    Unit("config", check_config, strategy=_config_cases, quick=24, thorough=400, shards_quick=8, shrink=False,
+    Unit("config", check_config, strategy=_config_cases, quick=96, thorough=600, shards_quick=16, shrink=False,
          doc="an honest three-link chain plus adversarial / replayed / rolled-back offers in fresh interpreters under drawn "
              "configurations and discovered environment variables"),
     Unit("history", check_history, strategy=_histories, quick=300, thorough=12000, shards_quick=8,
